@@ -68,6 +68,11 @@ def gen_cases(rng, tier):
     lo = rng.choice([0.0, 0.5, -3.0, 2.0, 10.0])
     hi = rng.choice([lo + rng.uniform(0.1, 12.0), lo - rng.uniform(0.1, 5.0) if i % 7 == 0 else lo + 1.0, lo + 1e-3])
     cases.append({"kind": "plot", "lo": lo, "hi": round(hi, 4), "steps": rng.choice([1, 2, 3, 10, 37, 100, 400]), "which": i % 4, "seed": rng.randrange(1 << 30)})
+    if i % 6 == 0:
+      # ranges in which several rows fall on the SAME double: a zero-width range, a range narrower than the spacing of
+      # doubles there - still exactly 'steps' rows, each with f at its own (repeated) x
+      lo2, hi2 = rng.choice([(2.5, 2.5), (0.0, 0.0), (1e15, 1e15 + 1.0), (1e16, 1e16 + 4.0), (-3.0, -3.0), (1.0, 1.0 + 2.0 ** -50)])
+      cases.append({"kind": "plot", "lo": lo2, "hi": hi2, "steps": rng.choice([2, 3, 10, 40]), "which": (i // 6) % 4, "seed": rng.randrange(1 << 30), "coinciding_rows": 1})
   # every small row count for the reader (2..40) and a few large ones, in all end-of-file / line-ending combinations
   for k, nrows in enumerate(list(range(2, 41)) + [63, 64, 65, 255, 256, 257, 1000, 1024, 4097]):
     xs, ys = gen_data(rng, nrows)
@@ -343,6 +348,8 @@ def run_reader_empty(case, ctx):
 
 
 def run_plot(case, ctx):
+  if case.get("coinciding_rows"):
+    ctx.cls("plot_rows_on_the_same_double")
   import os
   import tempfile
   import atsim.potentials as ap
